@@ -5,6 +5,7 @@ import MJ.Proofs.JsonFull
 import MJ.Proofs.JsonFloat
 import MJ.Proofs.SerdeTotal
 import MJ.Proofs.ValueSer
+import MJ.Proofs.JsonSer
 /-!
 # C16 — values round-trip through serde; `tojson` emits valid, HTML-safe JSON
 
@@ -14,7 +15,7 @@ post-processing, an independent strict JSON reader).  Tables (`MJ.Gen.tojsonRepl
 `MJ.Gen.jsonEscapeTable`, `MJ.Gen.jinja*Sep`) are regenerated from the sources on every run.
 -/
 namespace MJ.C16
-open MJ.Serde MJ.Json MJ.ValueSer
+open MJ.Serde MJ.Json MJ.ValueSer MJ.JsonSer
 
 /-- The property, at full strength, about the model. -/
 def C16_full : Prop :=
@@ -48,7 +49,14 @@ def C16_full : Prop :=
   -- (8) towards an external serializer (serde_json for tojson / auto-escaping) a value keeps serde's
   --     length contract: an announced `Some(n)` is exactly the number of elements / entries that
   --     follow, for every object whose iterator reports an honest size hint
-  (∀ (lv : LV), Honest lv → ContractOK (serCalls lv))
+  (∀ (lv : LV), Honest lv → ContractOK (serCalls lv)) ∧
+  -- (9) end to end: the text serde_json (modelled on the call stream, with its `Some(0)` shortcut and the
+  --     pretty formatter's indent counter) writes for a value — through tojson with any formatter or
+  --     through auto-escaping — reads back as the value's JSON image
+  (∀ (lv : LV) (st : Style) (j : J), Honest lv → jsonOf (toV false lv) = .ok j →
+      ∃ t, writeCalls st (serCalls lv) = .ok t ∧ parseJ (tojson t) = some j ∧ parseJ t = some j) ∧
+  -- (10) the internal-serialisation flag is restored by every conversion, nested and unwinding ones included
+  (∀ (c : Conv) (flag : Bool), (runConv c flag).1 = flag)
 
 /-! ## (1) round trip -/
 
@@ -272,13 +280,60 @@ theorem announced_len_exact (en : En) (xs : List LV) (h : Honest (.lazy en xs)) 
 example : serCalls (.list false [.lazy (.hinted 0 none) [.leaf (.int false 1), .leaf (.int false 2), .leaf (.int false 3)]])
     = .seq (some 1) [.seq none [.int 1, .int 2, .int 3]] := rfl
 example : Honest (.list false [.lazy (.hinted 0 none) [.leaf (.int false 1), .leaf (.int false 2), .leaf (.int false 3)]]) := by
-  simp [Honest, HonestList, enHonest]
+  simp [Honest, HonestList, enHonest, isScalarV]
+
+/-! ## (9) from the value's objects to the parsed text -/
+
+/-- `impl Serialize for Value` → serde_json's serializer (modelled call by call, including the
+`len == Some(0)` shortcut and `PrettyFormatter`'s indent counter) → `tojson` post-processing → a
+strict JSON reader: the value's JSON image comes back, for every formatter, for every value whose
+objects report honest lengths -/
+theorem engine_json_end_to_end (lv : LV) (st : Style) (j : J) (h : Honest lv) (hj : jsonOf (toV false lv) = .ok j) :
+    ∃ t, writeCalls st (serCalls lv) = .ok t ∧ parseJ (tojson t) = some j ∧ parseJ t = some j := by
+  refine ⟨writeJ st j, writeCalls_value st lv j h hj, ?_⟩
+  exact tojson_parses_back_all (toV false lv) st j hj
+
+/-- why the length contract matters: an announced `Some(0)` followed by an element makes serde_json
+write an already closed array (compact) or underflow its indent counter (pretty) -/
+example : writeCalls .jinja (.seq (some 0) [.bool true]) = .ok "[], true]".toList := by rfl
+example : writeCalls (.pretty 2) (.seq (some 0) [.int 1]) = .panic := by rfl
+example : writeCalls (.pretty 2) (.seq none [.unit, .seq (some 0) []]) = .ok "[\n  null,\n  []\n]".toList := by rfl
+
+/-! ## (10) the internal-serialisation flag -/
+
+/-- every `Value::from(Serde(x))` leaves `INTERNAL_SERIALIZATION` as it found it, whatever is nested
+inside and whether or not the serialisation panics (the guard's `drop` runs while unwinding) -/
+theorem serialization_flag_restored (c : Conv) (flag : Bool) : (runConv c flag).1 = flag :=
+  runConv_restores c flag
+
+example : runConv (.conv [.conv [] false, .conv [.conv [] true] false, .conv [] false] false) false = (false, true) := by
+  decide
+
+/-! ## tie to the sources
+
+The facts of the sources the models above transcribe, regenerated from /repo (and from the locked
+serde_json) on every run by `lib/tables/c16.py`; if one of them changes, this theorem — or the
+extraction — fails and the tie is reported broken. -/
+
+theorem source_tie :
+    -- `impl Serialize for Value`: sequences announce `o.enumerator_len()`, maps announce nothing
+    MJ.Gen.valueSerSeqLen = "o.enumerator_len()" ∧ MJ.Gen.valueSerMapLen = "None" ∧
+    -- `Enumerator::query_len` (= `enLen`)
+    MJ.Gen.enumeratorQueryLen =
+      [("Empty", "zero"), ("Iter", "exact_hint"), ("KeyValueIter", "exact_hint"), ("NonEnumerable", "none"),
+       ("RevIter", "exact_hint"), ("RevKeyValueIter", "exact_hint"), ("Seq", "n"), ("Str", "len"), ("Values", "len")] ∧
+    -- serde_json: the `len == Some(0)` shortcut and the pretty formatter's counters (= `wCall`, `endC`)
+    MJ.Gen.serdeJsonEmptyShortcut = true ∧ MJ.Gen.serdeJsonPrettyCounter = true ∧
+    -- value handles are u32 (= `serValueM`), the flag guard restores the previous flag (= `runConv`)
+    MJ.Gen.valueHandleBits = 32 ∧ MJ.Gen.serializationGuardRestores = true := by
+  refine ⟨by decide, by decide, by decide, rfl, rfl, rfl, rfl⟩
 
 /-- the full statement holds for the model -/
 theorem c16_full : C16_full :=
   ⟨de_ser_roundtrip, value_embedding_identity, value_embedding_in_context, registry_remove_insert,
    registry_frame, registry_no_residue, tojson_alphabet, tojson_string_parses_back,
    autoescape_string_parses_back, tojson_parses_back, autoescape_parses_back,
-   tojson_parses_back_all, de_total_classification, serialize_contract⟩
+   tojson_parses_back_all, de_total_classification, serialize_contract, engine_json_end_to_end,
+   serialization_flag_restored⟩
 
 end MJ.C16
